@@ -556,9 +556,19 @@ Why(cmd, conn, wt, tok) ==
   ELSE IF ~HasObject(cmd, wt) THEN "unknown_type"
   ELSE IF Verifies(cmd, wt) THEN "token_" \o tok ELSE "unexpected_token"
 
-Vec15(cmd, conn, wt, tok) == [cmd |-> cmd, conn |-> conn, wt |-> wt, tok |-> tok,
-                               effect |-> Effect(cmd, conn, wt, tok), why |-> Why(cmd, conn, wt, tok)]
+\* Spellings of a registered type name that are NOT the registered name (other capitalisation, trailing space, look-alike
+\* letters).  The code looks types up exactly, so they are unknown types: refused.  The rule that is judged on the daemon
+\* is wider: a submit is either refused as unknown type or held to the token rule of the type it finally runs as.
+SpellVariants15 == {"verifying_upper", "verifying_mixed", "verifying_space", "verifying_lookalike", "nonverifying_mixed"}
+BaseType15(w) == IF w = "nonverifying_mixed" THEN "nonverifying" ELSE IF w \in SpellVariants15 THEN "verifying" ELSE w
+Vec15(cmd, conn, wt, tok) == [cmd |-> cmd, conn |-> conn, wt |-> wt, tok |-> tok, base |-> BaseType15(wt),
+                               effect |-> IF wt \in SpellVariants15 THEN FALSE ELSE Effect(cmd, conn, wt, tok),
+                               allowed_if_resolved |-> Effect(cmd, conn, BaseType15(wt), tok),
+                               why |-> IF wt \in SpellVariants15 THEN "unknown_type" ELSE Why(cmd, conn, wt, tok)]
 Vectors15 == { Vec15(c, k, w, t) : c \in Cmds15, k \in Conns15, w \in WTs15, t \in Toks15 }
+             \cup { Vec15("submit", k, w, t) : k \in Conns15, w \in SpellVariants15, t \in Toks15 }
+\* whatever a daemon does with another spelling, it may not be more than what the type it resolves to allows
+SpellingNeverWidens == Part = "c15" => (v15.effect => v15.allowed_if_resolved)
 
 \* what the property protects: types configured to verify, and remote units that were asked to be signed
 Protected(cmd, wt) == wt = "verifying" \/ (wt = "remote_sign" /\ cmd # "submit")
